@@ -398,7 +398,7 @@ func (p *Parser) parseCaretBraces() (Revisioner, error) {
 		}
 
 		switch {
-		case tok == word && nextTok == cbrace && (lit == "commit" || lit == "tree" || lit == "blob" || lit == "tag" || lit == "object"):
+		case start && tok == word && nextTok == cbrace && (lit == "commit" || lit == "tree" || lit == "blob" || lit == "tag" || lit == "object"):
 			return CaretType{lit}, nil
 		case re == "" && tok == cbrace:
 			return CaretType{"tag"}, nil
